@@ -183,6 +183,8 @@ class Dyn(Calls):
     # ------------------------------------------------------------------ equality / truth / isinstance on objects
     def bi_type(self, args, kwargs, node):
         v = args[0]
+        if isinstance(v, VObj):
+            return VObj(z3.Function("attr___class__", ObjSort, ObjSort)(v.t), "type")
         if isinstance(v, VExc) and not v.exact:
             return VTypeOf(v)
         return super().bi_type(args, kwargs, node)
@@ -249,6 +251,8 @@ class Dyn(Calls):
     # ------------------------------------------------------------------ super()
     def ev_Call(self, n):
         f = n.func
+        if isinstance(f, ast.Name) and self.spec_mode and f.id in getattr(self.reg, "spec_builtins", {}):
+            return self.reg.spec_builtins[f.id](self, n)
         if isinstance(f, ast.Name) and f.id == "super" and not self.spec_mode:
             fi = self.frame.fi
             if fi is None or fi.cls is None:
@@ -732,9 +736,9 @@ class Dyn(Calls):
             for hint in (c.labels.get("regex_hints", []) if c else []):
                 hg, optlits = {}, []
                 for key, expr in hint.items():
-                    val = self.eval_spec_value(expr)
                     if key == "optional_literals":
                         continue
+                    val = self.eval_spec_value(expr)
                     gid = enc.names[key] if key in enc.names else int(key)
                     if val is VNone:
                         hg[gid] = (z3.BoolVal(True), z3.StringVal(""))
@@ -805,3 +809,32 @@ class Dyn(Calls):
         if args and isinstance(args[0], VOpt) and self.spec_mode:
             return super().bi_len([args[0].val], kwargs, node)
         return super().bi_len(args, kwargs, node)
+
+    def m_str_join(self, recv, args, kwargs):
+        return VStr(self.fresh("joined", z3.StringSort()))
+
+    def m_str_split(self, recv, args, kwargs):
+        """s.split(sep): a list of strings none of which contains sep, equal to [s] when s does not contain sep (sep a non-empty
+        constant).  The list is a function of (s, sep)."""
+        sep = z3.simplify(args[0].t) if args and isinstance(args[0], VStr) else None
+        if sep is None or not z3.is_string_value(sep) or not sep.as_string():
+            raise Unsupported("str.split without a constant separator")
+        S, I = z3.StringSort(), z3.IntSort()
+        arr = z3.Function("split_arr", S, S, z3.ArraySort(I, S))(recv.t, sep)
+        n = z3.Function("split_n", S, S, I)(recv.t, sep)
+        self.assume(n >= 1)
+        if not self.bound_ids:
+            self.add_universal([TInt], lambda i: z3.Implies(z3.And(0 <= i, i < n), z3.Not(z3.Contains(arr[i], sep))), "split-pieces")
+        self.assume(z3.Implies(z3.Not(z3.Contains(recv.t, sep)), z3.And(n == 1, arr[0] == recv.t)))
+        self.touch(TInt, z3.IntVal(0))
+        return self.new_box(ListV(TList(TStr), arr, n))
+
+    def bi_getattr(self, args, kwargs, node):
+        o, nm = args[0], args[1]
+        if isinstance(o, VObj) and len(args) == 2:
+            has = z3.Function("has_attr", ObjSort, ObjSort, z3.BoolSort())
+            key = self.box(nm)
+            if not self.spec_mode and not self.branch(has(o.t, key)):
+                raise PyRaise(VExc("AttributeError", []))
+            return VObj(z3.Function("getattr_", ObjSort, ObjSort, ObjSort)(o.t, key))
+        raise Unsupported("getattr on %r" % (o,))
